@@ -53,6 +53,8 @@ def check(ctx: Ctx) -> None:
     ctx.rule('C04.R9', 'operator tables agree: each isinstance(op, ast.X) arm applies the Python operator X', floor=20)
     ctx.rule('C04.R11', 'comprehension variables shadow and restore like Python: the binding that was in scope before the loop is saved and put back', floor=2)
     ctx.rule('C04.R10', 'documented text functions reach the library primitive their reference row names', floor=10)
+    ctx.rule('C04.R12', 'an expression is parsed as written: the text handed to ast.parse is the caller\'s text, not a rewritten copy (string literals are part of it)', floor=1)
+    r12_text_as_written(ctx)
     r1_identifiers(ctx)
     r2_casefold(ctx)
     r3_zero(ctx)
@@ -889,3 +891,26 @@ def r11_scoping(ctx: Ctx) -> None:
                       f'{m.name}: ' + '; '.join(why) + ': an inner comprehension that reuses the name of an outer loop variable (or of a := binding) destroys the outer binding, '
                       f'unlike the same Python construct (renaming the inner variable changes the result)', lp)
     ctx.need(n >= 2, f'C04.R11: only {n} comprehension loops binding a scope variable found')
+
+
+
+# --------------------------------------------------------------------------- R12
+REWRITES = {'call:join', 'call:split', 'call:replace', 'call:sub', 'call:subn', 'call:lower', 'call:upper', 'call:casefold', 'call:translate', 'call:expandtabs',
+            'call:title', 'call:capitalize', 'call:swapcase', 'call:format', 'call:encode', 'call:decode', 'call:normalize'}
+
+
+def r12_text_as_written(ctx: Ctx) -> None:
+    proj = ctx.proj
+    n = 0
+    for f in [x for x in proj.all_funcs() if x.module.short == EP]:
+        fl = None
+        for c in own_nodes(f.node):
+            if isinstance(c, ast.Call) and dotted(c.func) == 'ast.parse' and c.args:
+                fl = fl or get_flow(proj, f)
+                n += 1
+                ops = {o for _l, os_ in fl.leaf_paths(c.args[0], c) for o in os_}
+                bad = sorted(ops & REWRITES)
+                ctx.check(not bad, 'C04.R12', f, 'parse-text', 'ast.parse receives the expression text as written',
+                          f'the text given to ast.parse went through {bad}: the rewrite also reaches the inside of string literals, so `contains("SQ  *COFFEE")` silently searches for a '
+                          f'different text than the one written in the rule', c)
+    ctx.need(n >= 1, 'C04.R12: no ast.parse call found in expr_parser')
